@@ -16,7 +16,7 @@ func init() {
 		Level: "other",
 		Explanation: "Decides the non-interference and payload clauses: (R-EVFRESH) for every send on a chan Event (today two: LOOP in reportEvent, OP_EXEC in the operator wrapper), every slice/map/pointer-typed component statically reachable in the sent value (Event.Stack, OpEventData.Params inside Data) is rooted in a make/append-to-nil inside the sending function, filled before the send and not written after it: a payload that aliases a buffer the engine reuses (param2, the operand stack) changes under the consumer's feet; " +
 			"(R-WRAPID) the wrapper installed by calAndSetEventNode calls the captured original operator with its own (ctx, params) unchanged and returns exactly that call's two results, and reports name, a copy of the arguments taken BEFORE the operator is applied (D15), result and error of that very call; (R-EVNOOP) in Eval and TryEval, along the edge from the event arm to the loop latch every loop-carried variable is its loop-header value and the arm stores nothing: an event node only calls reportEvent(e, os, osTop, curt.value); " +
-			"(R-DUMPSKIP) Dump's child enumeration excludes nodes of kind event, so the decompiled text does not depend on event mode; (R-EVGATE) calAndSetEventNode runs only under ReportEvent or Debug. Writes of the wrapper/reportEvent beyond the send are excluded by C07 R-EFFECT. (R-EVREMAP) calAndSetEventNode rebuilds node array and parent table entry by entry in step (an event node mirrors its real node), records every appended node's position in the index table keyed by its original index, and relabels scIdx through the real-node table and parents through the event/real table under the -1 guards. NOT decided: ordering of OP_EXEC events relative to evaluation order.",
+			"(R-DUMPSKIP) Dump's child enumeration excludes nodes of kind event, so the decompiled text does not depend on event mode; (R-EVGATE) calAndSetEventNode runs only under ReportEvent or Debug. Writes of the wrapper/reportEvent beyond the send are excluded by C07 R-EFFECT. (R-EVREMAP) calAndSetEventNode rebuilds node array and parent table entry by entry in step (an event node mirrors its real node), records every appended node's position in the index table keyed by its original index, and relabels scIdx through the real-node table and parents through the event/real table under the -1 guards. NOT decided: ordering of OP_EXEC events relative to evaluation order. (R-EVSTACK) the LOOP event's Stack has osTop+1 elements, element i from os[i] for every i, complete before the send.",
 		Run:       runC12,
 		Witnesses: c12Witnesses,
 	})
@@ -24,6 +24,7 @@ func init() {
 
 func runC12(w *World, r *Report) {
 	ruleEvFresh(w, r)
+	ruleEvStack(w, r)
 	ruleWrapID(w, r)
 	ruleEvNoop(w, r)
 	ruleDumpSkip(w, r)
@@ -552,6 +553,12 @@ func ruleEvGate(w *World, r *Report) {
 }
 
 var c12Witnesses = []Witness{
+	{Name: "loop-event-stack-copy-leaves-after-eight", Rule: "R-EVSTACK", Edits: []Edit{
+		{File: "engine.go", Old: "	for i := int16(0); i <= osTop; i++ {\n		stack[i] = os[i]\n	}", New: "	for i := int16(0); i <= osTop; i++ {\n		if i > 7 {\n			break\n		}\n		stack[i] = os[i]\n	}"}}},
+	{Name: "loop-event-stack-misses-top", Rule: "R-EVSTACK", Edits: []Edit{
+		{File: "engine.go", Old: "	for i := int16(0); i <= osTop; i++ {\n		stack[i] = os[i]\n	}", New: "	for i := int16(0); i < osTop; i++ {\n		stack[i] = os[i]\n	}"}}},
+	{Name: "benign-loop-event-stack-with-copy", Rule: "R-EVSTACK", Benign: true, Edits: []Edit{
+		{File: "engine.go", Old: "	for i := int16(0); i <= osTop; i++ {\n		stack[i] = os[i]\n	}", New: "	copy(stack, os[:osTop+1])"}}},
 	{Name: "op-event-params-copied-after-the-call", Rule: "R-WRAPID", Edits: []Edit{
 		{File: "compiler.go", Old: "			args := append([]Value(nil), params...)\n			res, err = op(ctx, params)", New: "			res, err = op(ctx, params)\n			args := append([]Value(nil), params...)"}}},
 	{Name: "benign-op-event-params-make-copy", Benign: true, Edits: []Edit{
@@ -580,4 +587,222 @@ var c12Witnesses = []Witness{
 		{File: "engine.go", Old: "	stack := make([]Value, osTop+1)\n	for i := int16(0); i <= osTop; i++ {\n		stack[i] = os[i]\n	}", New: "	stack := make([]Value, osTop+1)\n	copy(stack, os)"}}},
 	{Name: "benign-wrapper-copy-with-make", Benign: true, Edits: []Edit{
 		{File: "compiler.go", Old: "			args := append([]Value(nil), params...)\n", New: "			cp := make([]Value, len(params))\n			copy(cp, params)\n			args := cp\n"}}},
+}
+
+// ---- R-EVSTACK ----------------------------------------------------------------
+
+// ruleEvStack: the LOOP event shows the whole operand stack — Event.Stack has osTop+1 elements and element i is
+// os[i] for every i, filled by copy or by a loop from 0 that only ends past osTop, before the send.
+func ruleEvStack(w *World, r *Report) {
+	const rule = "R-EVSTACK"
+	r.Rule(rule, "the LOOP event's Stack is a copy of os[0..osTop]: osTop+1 elements, element i from os[i], for every i, before the send", 1)
+	fn := w.MustFn(r, rule, "reportEvent")
+	if fn == nil || len(fn.Params) < 3 {
+		return
+	}
+	name := w.Name(fn)
+	var os, osTop ssa.Value
+	for _, p := range fn.Params {
+		if sl, ok := p.Type().Underlying().(*types.Slice); ok && typeNameOf(sl.Elem()) == "Value" {
+			os = p
+		}
+		if bt, ok := p.Type().Underlying().(*types.Basic); ok && bt.Info()&types.IsInteger != 0 {
+			osTop = p
+		}
+	}
+	var send *ssa.Send
+	EachInstr(fn, func(in ssa.Instruction) {
+		if s, ok := in.(*ssa.Send); ok && isEventChan(s.Chan.Type()) {
+			send = s
+		}
+	})
+	if os == nil || osTop == nil || send == nil {
+		r.Unresolved(rule, "reportEvent: operand stack, stack pointer or send not found")
+		return
+	}
+	isTopPlus := func(v ssa.Value, k int64) bool { // osTop + k, through integer conversions
+		for {
+			if cv, ok := v.(*ssa.Convert); ok {
+				v = cv.X
+				continue
+			}
+			break
+		}
+		if k == 0 {
+			return v == osTop
+		}
+		bo, ok := v.(*ssa.BinOp)
+		if !ok || bo.Op != token.ADD {
+			return false
+		}
+		x := bo.X
+		for {
+			if cv, ok := x.(*ssa.Convert); ok {
+				x = cv.X
+				continue
+			}
+			break
+		}
+		c, okc := constInt(bo.Y)
+		return okc && c == k && x == osTop
+	}
+	// the snapshot
+	var snap *ssa.MakeSlice
+	EachInstr(fn, func(in ssa.Instruction) {
+		if ms, ok := in.(*ssa.MakeSlice); ok {
+			if sl, oks := ms.Type().Underlying().(*types.Slice); oks && typeNameOf(sl.Elem()) == "Value" {
+				snap = ms
+			}
+		}
+	})
+	if snap == nil {
+		r.Fail(rule, w.InstrPos(send), name, "Event.Stack", "no snapshot of the operand stack is made")
+		return
+	}
+	pos := w.InstrPos(snap)
+	if !isTopPlus(snap.Len, 1) {
+		r.Fail(rule, pos, name, "make([]Value, "+describe(snap.Len)+")", "the snapshot does not have osTop+1 elements")
+		return
+	}
+	filled, why := false, "the snapshot is not filled from os[0..osTop]"
+	for _, ref := range referrers(snap) {
+		switch x := ref.(type) {
+		case *ssa.Call:
+			if calleeFullName(&x.Call) == "builtin.copy" && x.Call.Args[0] == ssa.Value(snap) {
+				src := x.Call.Args[1]
+				if src == os {
+					filled = true // copy stops at len(snapshot) = osTop+1
+				} else if sl, ok := src.(*ssa.Slice); ok && sl.X == os && (sl.Low == nil || isZeroConst(sl.Low)) && (sl.High == nil || isTopPlus(sl.High, 1)) {
+					filled = true
+				} else {
+					why = "copied from " + describe(src) + ", not from the bottom of the operand stack"
+				}
+				if filled && mayFollow(send, x) {
+					filled, why = false, "copied after the send"
+				}
+			}
+		case *ssa.IndexAddr:
+			if ms, isMS := x.X.(*ssa.MakeSlice); !isMS || ms != snap {
+				continue
+			}
+			// `for i := range stack` / `for i := 0; i < len(stack); i++`
+			if h, okR := rangeIndexHeader(x.Index, snap); okR {
+				for _, ref2 := range referrers(x) {
+					st, okS := ref2.(*ssa.Store)
+					if !okS || st.Addr != ssa.Value(x) {
+						continue
+					}
+					addr, okL := isLoad(st.Val)
+					sia, okA := addr.(*ssa.IndexAddr)
+					if !okL || !okA || sia.X != os || sia.Index != x.Index {
+						why = "element i of the snapshot is not os[i]"
+						continue
+					}
+					every := true
+					for _, p := range h.Preds {
+						if h.Dominates(p) && !st.Block().Dominates(p) {
+							every = false
+						}
+					}
+					if !every {
+						why = "an iteration can go by without copying its element"
+					} else if !edgeDominates(h, 1, send.Block()) {
+						why = "the event can be sent before the whole stack was copied (the fill loop can be left early)"
+					} else {
+						filled = true
+					}
+				}
+				continue
+			}
+			i, ok := x.Index.(*ssa.Phi)
+			if !ok {
+				if cv, okc := x.Index.(*ssa.Convert); okc {
+					i, ok = cv.X.(*ssa.Phi)
+				}
+			}
+			if !ok {
+				continue
+			}
+			hdr := i.Block()
+			zero, step := false, false
+			for k, e := range i.Edges {
+				if !hdr.Dominates(hdr.Preds[k]) {
+					zero = isZeroConst(e)
+					continue
+				}
+				if bo, okb := e.(*ssa.BinOp); okb && bo.Op == token.ADD && bo.X == ssa.Value(i) {
+					if c, okc := constInt(bo.Y); okc && c == 1 {
+						step = true
+						continue
+					}
+				}
+				step = false
+			}
+			iff, okIf := hdr.Instrs[len(hdr.Instrs)-1].(*ssa.If)
+			if !zero || !step || !okIf {
+				why = "the fill loop does not count from 0 in steps of one"
+				continue
+			}
+			// the loop goes on while i <= osTop (or i < osTop+1, i < len(snapshot))
+			exitEdge := -1
+			if cmp, okc := iff.Cond.(*ssa.BinOp); okc && cmp.X == ssa.Value(i) {
+				switch {
+				case cmp.Op == token.GTR && isTopPlus(cmp.Y, 0):
+					exitEdge = 0
+				case cmp.Op == token.LEQ && isTopPlus(cmp.Y, 0):
+					exitEdge = 1
+				case cmp.Op == token.LSS && (isTopPlus(cmp.Y, 1) || isLenOf(cmp.Y, snap)):
+					exitEdge = 1
+				}
+			}
+			if exitEdge < 0 {
+				why = "the fill loop is not bounded by osTop"
+				continue
+			}
+			for _, ref2 := range referrers(x) {
+				st, okS := ref2.(*ssa.Store)
+				if !okS || st.Addr != ssa.Value(x) {
+					continue
+				}
+				addr, okL := isLoad(st.Val)
+				if !okL {
+					why = "an element of the snapshot is not taken from the operand stack"
+					continue
+				}
+				sia, okA := addr.(*ssa.IndexAddr)
+				if !okA || sia.X != os || sia.Index != x.Index {
+					why = "element i of the snapshot is not os[i]"
+					continue
+				}
+				every := true
+				for k := range i.Edges {
+					if p := hdr.Preds[k]; hdr.Dominates(p) && !st.Block().Dominates(p) {
+						every = false
+					}
+				}
+				if !every {
+					why = "an iteration can go by without copying its element"
+					continue
+				}
+				if !edgeDominates(hdr, exitEdge, send.Block()) {
+					why = "the event can be sent before the whole stack was copied (the fill loop can be left early)"
+					continue
+				}
+				filled = true
+			}
+		}
+	}
+	r.Check(filled, rule, pos, name, "Event.Stack = copy of os[0..osTop]", "osTop+1 elements, element i from os[i], complete before the send", why)
+}
+
+func isZeroConst(v ssa.Value) bool {
+	for {
+		if cv, ok := v.(*ssa.Convert); ok {
+			v = cv.X
+			continue
+		}
+		break
+	}
+	c, ok := constInt(v)
+	return ok && c == 0
 }
